@@ -66,6 +66,8 @@ QUICK_LISTS = [
     [(None, "", True)],
     [(None, "aa00cc/ff00ff", False), (None, None, True)],                      # interior zero mask byte
     [(None, "0011/00ff", True)],
+    [("10.0.0.0/8", None, False), (None, "aabbcc", True)],                    # an earlier allow must not pre-empt fail-closed
+    [("0.0.0.0/0", None, False), ("10.0.0.0/8", "aabb", True), (None, None, True)],
     [("10.0.0.0/33", None, True), (None, "AABB", True)],
 ]
 
